@@ -190,3 +190,103 @@ def norm_or_err(obj, node):
         return lib.nan_clean(lib.norm(obj, node)), None
     except lib.NormError as e:
         return None, str(e)
+
+
+# ---------------------------------------------------------------------------------------------------
+# shared judgement helpers for the model-based checks
+
+
+def load_cfg(ctx, case, cfgd):
+    """Load the case's text under a configuration; returns T or None (recording load failures)."""
+    try:
+        cs = lib.load(case["text"], cfgd["endian"], cfgd["align"], cfgd["compiled"], cfgd["ptr"])
+    except Exception as e:  # noqa: BLE001
+        return None, e
+    return cs, None
+
+
+def bits_differ(a: bytes, b: bytes, mask: bytes):
+    """positions (byte index, differing bits) where a and b differ under mask"""
+    out = []
+    for i in range(min(len(a), len(b), len(mask))):
+        x = (a[i] ^ b[i]) & mask[i]
+        if x:
+            out.append((i, x))
+    return out
+
+
+def inv(mask: bytes) -> bytes:
+    return bytes(~m & 0xFF for m in mask)
+
+
+def k1_explains(diffs, d: bytes, k1: bytes):
+    """Every differing bit is a K1 bit (data in another union member only) and is zero in the library's dump."""
+    if not diffs:
+        return False
+    for i, x in diffs:
+        if i >= len(k1) or x & ~k1[i] & 0xFF:
+            return False
+        if d[i] & x:
+            return False
+    return True
+
+
+def std_configs(rng, thorough, top, compiled_both=True):
+    ptr_pool = ["uint64", "uint32", "uint16", "uint8"]
+    out = []
+    for endian in ("<", ">"):
+        for align in (False, True):
+            for compiled in ((True, False) if compiled_both else (rng.random() < 0.5,)):
+                out.append({"endian": endian, "align": align, "compiled": compiled,
+                            "ptr": rng.choice(ptr_pool) if gen.has_ptr(top) else "uint64"})
+    if thorough and rng.random() < 0.3:
+        out.append({"endian": "!", "align": rng.random() < 0.5, "compiled": rng.random() < 0.5, "ptr": "uint64"})
+    return out
+
+
+def judge_parse(ctx, case, cfgd, cfg, T, inp, offset=0, label="parse", sig_prefix=""):
+    """Compare the real reader's outcome on (inp, offset) with the reference model.  Returns (lib outcome, expected)."""
+    top = case["top"]
+    r = outcome(T, inp, offset)
+    exp = expected_parse(case, cfg, inp, offset)
+    key = (case["text"], tuple(sorted(cfgd.items())), inp.hex(), offset)
+    if exp[0] == "unsupported":
+        ctx.event("model_unsupported")
+        ctx.evaluation(key, nontrivial=False)
+        return r, exp
+    ctx.evaluation(key)
+
+    def viol(kind, sig, **kw):
+        ctx.violation(kind, sig_prefix + sig, case_detail(case, cfg=cfgd, data=inp, offset=offset, label=label, **kw))
+
+    if exp[0] == "ok":
+        want = lib.nan_clean(model.clean(exp[1]))
+        if r[0] == "ok":
+            got, e = norm_or_err(r[1], top)
+            if e:
+                viol("norm", "unexpected-value-kind", error=e)
+            elif got != want:
+                viol("value", "parsed-value-differs-from-model", got=got, want=want)
+            elif r[2] != exp[2]:
+                viol("tell", "consumed-differs-from-model", got=r[2], want=exp[2])
+            else:
+                ctx.event(f"agree_ok:{label}")
+        else:
+            if "eof_partial" in exp[3] or "tail_padding_missing" in exp[3]:
+                ctx.event("accepted_error_on_partial_tail")
+            else:
+                viol("raises", f"reader-raises-on-complete-input:{type(r[1]).__name__}", error=lib.exc_sig(r[1]),
+                     want=want)
+    elif exp[0] == "eof":
+        if r[0] == "ok":
+            got, e = norm_or_err(r[1], top)
+            viol("fabricated", "value-returned-although-data-bytes-missing", got=got)
+        else:
+            ctx.event(f"agree_err:{label}")
+    elif exp[0] == "decode":
+        if r[0] == "ok":
+            got, e = norm_or_err(r[1], top)
+            viol("decode", "value-returned-for-invalid-utf16", got=got)
+        else:
+            ctx.event(f"agree_decode_err:{label}")
+    return r, exp
